@@ -4,7 +4,7 @@ from kani import Harness
 F = "scylla/src/routing/sharding.rs:"
 _msb = [Harness(f"c11_shard_of_msb_{m:02d}", f"C11.shard_of.kani_contract.msb{m:02d}", "PROVED-C",
                 f"as compiled: shard_of(t) == spec_shard(t,n,{m}) and < n for all i64 tokens, all n in 1..=65535 (z3)",
-                solver="z3", functions=[F + "Sharder::shard_of"], timeout=300) for m in range(64)]
+                solver="z3", functions=[F + "Sharder::shard_of"], timeout=300, backed_by="C11.Sharder.shard_of.contract") for m in range(64)]
 
 PROPERTY = {
     "title": "shard of a token and shard-aware source ports match ScyllaDB's algorithm",
